@@ -1029,6 +1029,11 @@ package thrift
 
 // FastRead: on success the consumed length is exactly the struct extent given by the grammar
 // (every unknown or differently-typed field is skipped with its exact length); never panics.
+// For the canonical encoding FastWrite produces (field 1: string, field 2: i32, STOP) FastRead is
+// its exact inverse: the message and the type id are the encoded ones.
+//@ pred appN(b) = int(int32(vs.BE32(b, 3)))
+//@ pred appCanon(b) = len(b) >= 7 && b[0] == 11 && vs.BE16(b, 1) == 1 && appN(b) >= 0 && len(b) >= 15 + appN(b) && b[7+appN(b)] == 8 && vs.BE16(b, 8+appN(b)) == 2 && b[14+appN(b)] == 0
+//@ pred appMsgIs(e, b) = len(e.m) == appN(b) && eqbytes(e.m, 0, b, 7, appN(b))
 //@ func ApplicationException.FastRead
 //@   arith int
 //@   props C03, C11, C12
@@ -1036,9 +1041,11 @@ package thrift
 //@   ensures err == nil ==> R >= 0 && off == R
 //@   ensures R >= 0 ==> err == nil
 //@   ensures 0 <= off && off <= len(b)
+//@   ensures appCanon(b) ==> err == nil && off == 15 + appN(b) && appMsgIs(e, b) && e.t == int32(vs.BE32(b, 10 + appN(b)))
 //@   assigns e.m, e.t
 //@   loop 1 invariant 0 <= off && off <= len(b) && err == nil
 //@   loop 1 invariant R == vs.Then(off, vs.FieldsLenD(b[off:], 65))
+//@   loop 1 invariant appCanon(b) ==> off == 0 || (off == 7 + appN(b) && appMsgIs(e, b)) || (off == 14 + appN(b) && appMsgIs(e, b) && e.t == int32(vs.BE32(b, 10 + appN(b))))
 //@   loop 1 decreases len(b) - off
 
 //@ func UnmarshalFastMsg
@@ -1115,3 +1122,12 @@ package thrift
 //@   ensures same(p.r, old(p.r))
 //@   assigns p.n, p.b, p.b[0:len(p.b)], p.r.$f, p.r.$ferr
 //@   assigns forall g int :: g == region(p.b) && cap(p.b) > 0 ==> g.$pool
+
+// ---- property lemmas (lemmas_verif.go) ----
+//@ func lemmaAppExRoundTrip
+//@   arith int
+//@   props C11, C12
+//@   requires !isnil(e) && !isnil(e2) && len(b) >= 15 + len(e.m) && sizeOK(len(e.m))
+//@   assert call FastRead#1 int32(vs.BE32(b, 10 + len(e.m))) == e.t
+//@   ensures ret1 == nil && ret0 == 15 + len(old(e.m)) && len(e2.m) == len(old(e.m)) && eqbytes(e2.m, 0, old(e.m), 0, len(old(e.m))) && e2.t == old(e.t)
+//@   assigns b[0:15+len(e.m)], e2.m, e2.t
